@@ -24,3 +24,14 @@ template<class D = void> constexpr int64_t h_loop_sub(int64_t a, int64_t b, int6
   { fixed_t acc = as_fixed(a); for (int64_t i = 0; i < n; ++i) acc -= as_fixed(b); return acc.v; }
 template<class D = void> constexpr int64_t h_chain(int64_t a, int64_t b, int64_t c)
   { fixed_t x = as_fixed(a); x += as_fixed(b); x -= as_fixed(c); return x.v; }
+
+// call-context shapes added after round 4 of the seeded changes
+template<class D = void> constexpr int64_t h_addeq_self(int64_t a) { fixed_t x = as_fixed(a); x += x; return x.v; }           // both operands are the same object
+template<class D = void> constexpr int64_t h_subeq_self(int64_t a) { fixed_t x = as_fixed(a); x -= x; return x.v; }
+template<class D = void> constexpr int64_t h_muleq_self(int64_t a) { fixed_t x = as_fixed(a); x *= x; return x.v; }
+extern volatile int64_t g_cut_sink;   // keeps the first of two uses alive (run-time entries only)
+template<class T> inline int64_t h_to_twice(int64_t a, int64_t b) { fixed_t x = as_fixed(a); T p = static_cast<T>(x); g_cut_sink = static_cast<int64_t>(p); x += as_fixed(b); T q = static_cast<T>(x); return static_cast<int64_t>(q); }
+template<class T> inline int64_t h_f2a_twice(int64_t a, int64_t b) { fixed_t x = as_fixed(a); T p = fixed_to_arithmetic<T>(x); g_cut_sink = static_cast<int64_t>(p); x += as_fixed(b); T q = fixed_to_arithmetic<T>(x); return static_cast<int64_t>(q); }
+template<class D = void> inline int64_t h_shl_twice(int64_t a, int64_t b, int64_t r) { fixed_t x = as_fixed(a); fixed_t p = x << static_cast<int>(r); g_cut_sink = p.v; x += as_fixed(b); fixed_t q = x << static_cast<int>(r); return q.v; }
+template<class D = void> inline int64_t h_shr_twice(int64_t a, int64_t b, int64_t r) { fixed_t x = as_fixed(a); fixed_t p = x >> static_cast<int>(r); g_cut_sink = p.v; x += as_fixed(b); fixed_t q = x >> static_cast<int>(r); return q.v; }
+template<class D = void> inline int64_t h_neg_twice(int64_t a, int64_t b) { fixed_t x = as_fixed(a); fixed_t p = abs(x); g_cut_sink = p.v; x += as_fixed(b); fixed_t q = abs(x); return q.v; }
